@@ -115,7 +115,8 @@ def to_smt2(ob: Obligation) -> str:
 
 
 def _pool_check(args):
-    text, timeout_ms, seed, use_cvc5 = args
+    text, timeout_ms, seed, use_cvc5 = args[:4]
+    cfg = args[4] if len(args) > 4 else None
     import z3 as _z3
     t0 = time.time()
     try:
@@ -123,6 +124,8 @@ def _pool_check(args):
         s.set("timeout", int(timeout_ms))
         if seed:
             s.set("random_seed", int(seed))
+        for k_, v_ in (cfg or {}).items():
+            s.set(k_, v_)
         s.from_string(text)
         r = s.check()
         if r == _z3.unsat:
